@@ -62,6 +62,16 @@ CHECKS = {
                 "buf + padded_buflen - 1 - i with i < blocksize after padded_buflen >= blocksize > 0, i.e. inside the final block. Marker "
                 "position, round-trip and the rejection set are not decided.",
     },
+    "C17": {
+        "engine": "PathAI (E1) + affine layout evaluation (E10)",
+        "technique": "affine-relation evaluation of pointer/size arithmetic + path ordering / dominance analysis",
+        "text": "Static, for every requested size: in _sodium_malloc user_ptr + size equals base + 2*page + R(16+size), exactly that page is made "
+                "inaccessible, the 16-byte canary sits at user_ptr - 16 and the mapping is 3*page + R(16+size) bytes, all before the pointer is "
+                "returned; sodium_malloc fills with a non-zero constant; _free_aligned is reached only after the canary comparison returned 0 "
+                "and the mismatch arm cannot return; oversize and count*size overflow guards dominate the arithmetic and fail with ENOMEM/NULL; "
+                "each sodium_mprotect_* applies its own PROT_* constant to (unprotected_ptr, stored size). That the OS faults on the guard "
+                "page is not decided.",
+    },
     "C20": {
         "engine": "PathAI (E1) + call-graph effects (E2)",
         "technique": "path-sensitive typestate analysis of allocations (tested-before-use, error propagation, release-once, no leak) over every fault position",
